@@ -277,8 +277,9 @@ for pm, tier in (("table_u8_p8", "quick"), ("table_u8_p7", "quick")):
         kani(f"models::{pm}::{v}", ["C19", "C03", "C09", "C05", "C20"], tier=tier, kind="bounded", bound=v + " u8 entries (all values)",
              fns=[FT, M + "categorical/contiguous.rs::ContiguousCategoricalEntropyModel::{from_nonzero_fixed_point_probabilities,left_cumulative_and_probability,quantile_function,symbol_table,as_view}", M + "categorical.rs::iter_extended_cdf"],
              text="Ok <=> table valid (entries nonzero, >= 2 symbols, sum == 2^P or < 2^P with inference); Ok => model contract; table rows and view == encoder view")
-kani("models::lookup_contiguous_p4", ["C05", "C10", "C20"], kind="bounded", bound="<= 3 entries, P=4", timeout=1200, tier="thorough",
-     fns=[M + "categorical/lookup_contiguous.rs::ContiguousLookupDecoderModel::{from_nonzero_fixed_point_probabilities,quantile_function,as_contiguous_categorical,symbol_table}", M + "categorical/lookup_contiguous.rs::From<&ContiguousCategoricalEntropyModel>"])
+# models::lookup_contiguous_p4 (symbolic table of <= 3 entries at P = 4 through the lookup constructor and both conversions) ends with an undetermined CBMC
+# result after ~5 min (Vec::resize with a symbolic length): not registered; the lookup models are covered by the Verus lookup unit (query function, any
+# table size) and models::lookup_full_precision_p8 (construction and conversion, one table, every quantile).
 kani("models::lookup_contiguous_rejects_p4", ["C19"], kind="bounded", bound="<= 3 entries, P=4", timeout=1200, tier="thorough",
      fns=[M + "categorical/lookup_contiguous.rs::ContiguousLookupDecoderModel::from_nonzero_fixed_point_probabilities"])
 # models::non_contiguous_p4 (symbolic table of <= 3 entries with <= 4 symbolic symbols) ends with an undetermined CBMC result after ~5 min: not registered;
